@@ -9,18 +9,18 @@ CLAIMED = {
  "C02": {"text": "Every Scanner function the property is anchored in (includes, is_last, the yacc production helpers) is proved against a contract written from the property statement, for all inputs and iterations, by VCs generated from the real source; a change that breaks the denotation fails a named clause and is replayed on the real function.",
          "note": "Assumes: PLY reduces productions bottom-up/left-to-right and the lexer yields int NUMBER tokens (closed only by the bounded native complement); collaborator line_monitor abstracted; encoding assumptions of DESIGN §8.",
          "tech": TECH + " + bounded native complement through real PLY"},
- "C14": {"text": "The documented assignment table (D1-D7) is a set of postconditions on the real Equality._do_assignment/_do_assignment_new_impl, proved for all 256 qualifier subsets and all values symbolically, modularly from exact contracts on _set_variable_if/_latch_and_onchange.",
+ "C14": {"cat": "proof", "text": "The documented assignment table (D1-D7) is a set of postconditions on the real Equality._do_assignment/_do_assignment_new_impl, proved for all 256 qualifier subsets and all values symbolically, modularly from exact contracts on _set_variable_if/_latch_and_onchange.",
          "note": "Assumes [A] interface contracts: child to_value memoised per line, Matcher.get/set_variable as abstract store view, Qualified.line_matches as the onmatch look-ahead, asbool a function of its argument; AND mode; listed don't-cares unchecked.",
          "tech": TECH},
 }
 CLAIMED.update({
- "C04": {"text": "Every function that writes or reports the verdict is under contract and proved: Fail/FailAll/Stopper._stop_me invalidate exactly when fired, ErrorHandler._handle_if exactly under 'fail' (symbolic policy and overrides), Matcher.matches/_consider_line are monotone, Failed reports the current verdict, ResultsManager.is_valid / ResultsRegistrar.all_valid / register_complete are the conjunction of the members (unbounded loops with invariants); a frame scan over the whole package proves no writer can set the verdict back to True.",
+ "C04": {"cat": "proof", "text": "Every function that writes or reports the verdict is under contract and proved: Fail/FailAll/Stopper._stop_me invalidate exactly when fired, ErrorHandler._handle_if exactly under 'fail' (symbolic policy and overrides), Matcher.matches/_consider_line are monotone, Failed reports the current verdict, ResultsManager.is_valid / ResultsRegistrar.all_valid / register_complete are the conjunction of the members (unbounded loops with invariants); a frame scan over the whole package proves no writer can set the verdict back to True.",
          "note": "Assumes [A]: match components as interface objects (vote / fires stop / fails), Result.is_valid as the member verdict, manifest bytes on disk (json.dump) not modelled; explain-mode off.",
          "tech": TECH + " + syntactic frame scan"},
- "C05": {"text": "The five observable effects of error handling are postconditions on normal AND exceptional exits of the real ErrorHandler._handle_if for a symbolic policy list and symbolic validation-mode overrides (the 2^6 x 3^4 split is done by the solver); do_i_* and ValidationMode.set_* are proved against override-else-policy; attribute safety turns a missing attribute into a failed no_unexpected_exception obligation; Expression.matches traps everything; Matcher.matches hands trapped errors over on every exit.",
+ "C05": {"cat": "proof", "text": "The five observable effects of error handling are postconditions on normal AND exceptional exits of the real ErrorHandler._handle_if for a symbolic policy list and symbolic validation-mode overrides (the 2^6 x 3^4 split is done by the solver); do_i_* and ValidationMode.set_* are proved against override-else-policy; attribute safety turns a missing attribute into a failed no_unexpected_exception obligation; Expression.matches traps everything; Matcher.matches hands trapped errors over on every exit.",
          "note": "Assumes [A]: CsvPath.print as abstract printer log, ECM policy snapshot equals the passed policy, collector is a CsvPath (Result collector not yet under contract), logging dropped.",
          "tech": TECH},
- "C13": {"text": "Matcher.matches is proved against control clauses taken from the property (no component after a halt, skip means no match and does not outlive the line, stop mid-line means no match, stop as final component keeps the fold), CsvPath.next (generator, ghost yield list) against 'no record after the stopping one', _consider_line against the advance and blank-last clauses, Stop/Skip/Advance/Last._decide_match against fires-iff clauses; all loops by invariants, unbounded.",
+ "C13": {"cat": "proof", "text": "Matcher.matches is proved against control clauses taken from the property (no component after a halt, skip means no match and does not outlive the line, stop mid-line means no match, stop as final component keeps the fold), CsvPath.next (generator, ghost yield list) against 'no record after the stopping one', _consider_line against the advance and blank-last clauses, Stop/Skip/Advance/Last._decide_match against fires-iff clauses; all loops by invariants, unbounded.",
          "note": "Assumes [A]: match components / records as interface objects with ghost fields; generator protocol; scanner well-formedness from C02; explain-mode off.",
          "tech": TECH},
 })
@@ -40,16 +40,16 @@ CLAIMED.update({
          "note": "BOUNDED, not proved: 246 (group, file) cases x six run methods. next_by_line's nested generator loop is not under contract. Assumes members share no mutable state.",
          "tech": BT},
  "C09": {"cat": "other", "text": "Proved: the run manifest's status / all_valid / all_completed / error_count written by ResultsRegistrar.register_complete are the conjunction / conjunction / sum over the members (unbounded loops, prefix_sum spec function). Bounded: every archived file of 48 real runs (4 groups x 2 files x six methods) is read back and compared with the in-memory results and its fingerprint.",
-         "note": "The serializer's file writes (ResultSerializer._save) and ResultRegistrar are covered only by the bounded runs; json/csv/hashlib external.",
+         "note": "Proved too: ResultSerializer._save writes meta/errors/vars.json with exactly the given content into the member's directory (ghost effect log). data.csv, unmatched.csv, printouts.txt, the member manifest (ResultRegistrar) are BOUNDED only; json/csv/hashlib external.",
          "tech": BT},
  "C10": {"cat": "other", "text": "Proved: get_run_dir returns a path for which os.path.exists is False under base/<named-paths name>/ (while loop + invariant, file system as uninterpreted predicate); clear_run_coordination forgets the run directory; the strftime format read from the source is strictly monotone in the timestamp and equals the format the :last/:first reader parses (VCs over directive fields). Bounded: run sequences with a scripted clock.",
          "note": "Assumes strftime/strptime directive semantics; bounded: all sequences of length <=2, all length-3 of one group, stride sample of the rest.",
          "tech": BT},
- "C18": {"cat": "other", "text": "Proved: ErrorHandler._handle_if has collected/printed/failed/stopped before it raises (exceptional-exit postconditions, all policies). Bounded: every (member, line) abort point of the stated grid is run on the real CsvPaths for the six run methods, the archive is read back, and a further run on the same instance must archive normally without touching the aborted record.",
-         "note": "BOUNDED for the run methods' exception paths (not under contract). One known finding (abort on the last line -> completed true).",
+ "C18": {"cat": "other", "text": "Proved: collect_paths, fast_forward_paths and next_paths save the member being run before an exception leaves them, do not complete the run and clear the run coordination (exceptional-exit postconditions; loop invariant over the members; all policies); a finished run saves every member and completes once. ErrorHandler._handle_if has collected/printed/failed/stopped before it raises. Bounded: every (member, line) abort point of the stated grid is run on the real CsvPaths for the six run methods, the archive is read back, and a further run on the same instance must archive normally without touching the aborted record.",
+         "note": "next_by_line (the three breadth-first methods) is BOUNDED only. One known finding (abort on the last line -> completed true).",
          "tech": BT},
  "C20": {"cat": "other", "text": "Proved: Reference._variable_value returns the stored final value whatever it is (0, False, '' included) and raises exactly when the variable is unknown; get_last_named_result returns the last added result; SourceMode.value reads 'preceding'. Bounded: source-mode preceding chains (every suffix) and variable/tracked/results references on the real CsvPaths.",
-         "note": "_load_csvpath's source-mode branch and header references are covered only by the bounded runs; tracked-variable variant of _variable_value bounded.",
+         "note": "Proved too: _load_csvpath parses '$' + the predecessor's data.csv + match part in source-mode preceding, the named file otherwise, the referenced data.csv for a results reference. Header references and the tracked-variable variant of _variable_value are BOUNDED only.",
          "tech": BT},
 })
 CLAIMED.update({
@@ -106,7 +106,7 @@ for p in props:
         c = CLAIMED[pid]
         m["checks"].append({"property_id": pid, "quick_cmd": f"./check {pid} --tier quick", "thorough_cmd": f"./check {pid} --tier thorough",
                             "evidence_file": f"evidence/{pid}.json", "replay_cmd_template": f"./check {pid} --replay {{path}}", "engine": "pyvc",
-                            "level_claimed": {"category": c.get("cat", "other"), "text": c["text"], "design_ref": "DESIGN.md §6 " + pid},
+                            "level_claimed": {"category": c.get("cat", "other"), "text": c["text"], "design_ref": "DESIGN.md §0 (as built) and §6 " + pid},
                             "level_note": c["note"], "technique": c["tech"]})
     else:
         m["not_applicable"].append({"property_id": pid, "reason": NA_REASON.get(pid, "not built yet in the time used so far (contracts planned in DESIGN.md §6); not a statement that the technique cannot apply")})
